@@ -25,6 +25,17 @@ def _nz(h, name, lo=-3, hi=3, min2=0.01):
     return v
 
 
+def _config(f):
+    """the filter's plain numeric settings (gains, periods, thresholds): a dropout must not alter them"""
+    return {k: v for k, v in vars(f).items() if isinstance(v, (int, float)) and not isinstance(v, bool)}
+
+
+def _config_unchanged(h, tag, f, cfg):
+    now = _config(f)
+    for k, v in cfg.items():
+        h.check(f'{tag}: setting {k} unchanged', h.eq(now[k], v) if k in now else h.false())
+
+
 def _ok(h, tag, fn):
     """fn() must raise ValueError or return a defined unit quaternion"""
     raised, out = h.raises(fn, (ValueError,))
@@ -45,21 +56,25 @@ def madgwick(h):
     q = h.unit_quat('q')
     g, a, m = _nz(h, 'g'), _nz(h, 'a'), _nz(h, 'm')
     f = flt.Madgwick()
+    cfg = _config(f)
     _ok(h, 'updateIMU(acc=0)', lambda: f.updateIMU(q.copy(), g.copy(), Z.copy()))
     _ok(h, 'updateIMU(gyr=0)', lambda: f.updateIMU(q.copy(), Z.copy(), a.copy()))
     _ok(h, 'updateMARG(acc=0)', lambda: f.updateMARG(q.copy(), g.copy(), Z.copy(), m.copy()))
     _ok(h, 'updateMARG(acc=0, mag=0)', lambda: f.updateMARG(q.copy(), g.copy(), Z.copy(), Z.copy()))
     _ok(h, 'updateMARG(gyr=0)', lambda: f.updateMARG(q.copy(), Z.copy(), a.copy(), m.copy()))
+    _config_unchanged(h, 'Madgwick after the dropouts', f, cfg)
 
 
-@harness('C13/Madgwick.mag0', tiers=('thorough',), functions=[FF + 'madgwick:Madgwick.updateMARG'], max_paths=32)
+@harness('C13/Madgwick.mag0', functions=[FF + 'madgwick:Madgwick.updateMARG'], max_paths=32)
 def madgwick_mag0(h):
     """Madgwick.updateMARG with a zeroed magnetometer sample falls back to the IMU update (outside its known zero-gradient set)"""
     q = h.unit_quat('q')
     g, a = _nz(h, 'g'), _nz(h, 'a')
     h.definedness = 'assume'      # the IMU step's own definedness is C03's subject (KF-C03-madgwick-zero-gradient)
-    f = flt.Madgwick()
+    f = flt.Madgwick(gain=0.2)
+    cfg = _config(f)
     _ok(h, 'updateMARG(mag=0)', lambda: f.updateMARG(q.copy(), g.copy(), a.copy(), Z.copy()))
+    _config_unchanged(h, 'Madgwick after updateMARG(mag=0)', f, cfg)
 
 
 @harness('C13/Mahony', functions=[FF + 'mahony:Mahony.updateIMU', FF + 'mahony:Mahony.updateMARG'], max_paths=32)
